@@ -82,6 +82,8 @@ def label_of(stmt):
 
 
 _BATON = [None]
+# fault-assisted scenarios: thread `tid` loses a duplicate-key race at its next `left` statements containing `match`
+FAULT = {'tid': None, 'match': '', 'left': 0}
 
 
 def _on_stmt(index, stmt, params):
@@ -129,6 +131,12 @@ def _install():
         if st.upper().startswith('BEGIN') or st.upper().startswith('PRAGMA'):
             return
         _on_stmt(0, st, parameters)
+        f = FAULT
+        if f['left'] > 0 and getattr(TL, 'tid', None) == f['tid'] and f['match'] in st:
+            # a duplicate-key race lost by this thread: the statement fails, the enclosing transaction is rolled back
+            f['left'] -= 1
+            from oslo_db import exception as db_exc
+            raise db_exc.DBDuplicateEntry()
 
 
 def run_concurrent(app, requests, schedule, headers=None):
